@@ -9,8 +9,10 @@ spec/RangeLoop.tla    range(start, stop, step) / reversed(range(...)) with a C-t
     real 8-bit types; invariants: the C loop follows the reference up to its first wrap event
     and ends with it otherwise; rows (range length, first wrap event) are published.
 spec/IterMutation.tla dict / set / list iteration (forward, reversed) under mutation by the body,
-    a state machine over CPython 3.12's storage layouts with the iterators' checks; every
-    finished behaviour (script, visited items, final item, how it ended) is published.
+    a state machine over CPython 3.12's storage layouts with the iterators' checks; the
+    implementation-shaped __Pyx_dict_iter_next (size check, PyDict_Next, item counter) steps its own
+    temps alongside and TLC proves full agreement with the reference; every finished behaviour
+    (script, visited items, final item, how it ended) is published.
 
 Binding: one generated template is emitted as .pyx (C) and as plain Python (P); the same child
 driver replays the same call tables on both.  S (spec rows / behaviours; for 32/64-bit values the
@@ -486,10 +488,16 @@ def run(tier, seed):
             if pred is not None:
                 tot["pred"] += 1
                 tot["pred_ok"] += (c == pred)
+                # fidelity of the implementation-shaped model: a deviation it predicts must be the one the compiled code shows
+                tot["pred_not_obs"] += (pred != want and c != pred)
             if c != want:
                 oc_ = obs_class(want, c)
                 if pred is not None and c == pred:
                     oc_ = "wrap-as-modelled"
+                else:
+                    # ... and the compiled code must not deviate where the model (range: wrap simulation; containers: TLC proves
+                    # that the implementation-shaped step functions agree with the reference everywhere) predicts agreement
+                    tot["obs_not_pred"] += 1
                 rep.disagree(desc, oc_, {"module": tab.module, "call": call, "want": want, "got": c, "model_predicts": pred})
         if good and lo == 0:
             i = rng.choice(good)
@@ -526,6 +534,7 @@ def run(tier, seed):
         "exhaustive": True,
         "calls_per_module": {tab.module: len(tab.calls) for tab in tabs.values()},
         "hazard_calls_with_model_prediction": n_pred, "hazard_calls_where_compiled_code_equals_prediction": n_pred_ok,
+        "fidelity": {"predicted_not_observed": tot["pred_not_obs"], "observed_not_predicted": tot["obs_not_pred"]},
         "stats": dict(stats), "phase_end_s": phase,
         "rule": "range: every (start, stop) of the scaled 5/6-bit types x step -3..3 x forward/reversed in the model; on real code the "
                 "8-bit rows as published, 32/64-bit types on a boundary grid (reference and hazard description from the drift-checked "
